@@ -56,9 +56,11 @@ func (lp LinkPrototype) BuildLink(hashsum []byte) datamodel.Link {
 		panic(fmt.Errorf("invalid cid v0 prefix"))
 	}
 
-	if length != -1 {
-		hashsum = hashsum[:p.MhLength]
+	if length >= 0 && length <= len(hashsum) {
+		hashsum = hashsum[:length]
 	}
+	// (A length the hash function cannot supply - a link taken from untrusted data may claim
+	// any - leaves the whole sum: such a link then matches no content, instead of panicking here.)
 
 	mh, err := multihash.Encode(hashsum, p.MhType)
 	if err != nil {
